@@ -14,7 +14,8 @@ import (
 )
 
 // one step of a queue script: 'a' Append(x), 'r' receive from Chan(), 't' Batch() (timer branch),
-// 'f' tryEnqueueingBatch, 's' FlushAndShutdown
+// 'f' tryEnqueueingBatch, 's' FlushAndShutdown, 'B' FlushAndShutdown started on a full channel with a
+// non-empty partial batch: it must stay blocked (retrying every second) until a receive makes room
 type sop struct {
 	K byte  `json:"k"`
 	X int64 `json:"x,omitempty"`
@@ -47,6 +48,7 @@ var (
 	oT = []sop{{K: 't'}}
 	oF = []sop{{K: 'f'}}
 	oS = []sop{{K: 's'}}
+	oB = []sop{{K: 'B'}}
 )
 
 var fixedScripts = []fixedScript{
@@ -61,6 +63,9 @@ var fixedScripts = []fixedScript{
 	// duplicate send fixed by dca118dfcb)
 	{"flush-timer-duplicate", 3, 3, cat(ap(1, 2), oF, oR, oT, oS, oR)},
 	{"flush-then-timer-then-recv", 2, 4, cat(ap(1, 2, 3), oF, oT, oT, oR, oS, oR)},
+	// FlushAndShutdown keeps retrying while the channel is full, for longer than two of its 1 s waits
+	{"flush-blocked-until-drained", 2, 2, cat(ap(1, 2, 3), oB, oR, oR)},
+	{"flush-blocked-two-slots", 3, 6, cat(ap(1, 2, 3, 4, 5, 6, 7, 8), oB, oR, oR, oR)},
 }
 
 type scriptDesc struct {
@@ -104,7 +109,7 @@ func runScript(id int, seed uint64, idx int, fixed *fixedScript, cf *gallina.Cas
 	// mirror of the queue's occupancy, used only to choose legal next steps
 	chanLen, batchLen := 0, 0
 	flushed, shut, closedSeen, aborted := false, false, false, false
-	refused, partial, race := false, false, false
+	refused, partial, race, blockedFlush := false, false, false, false
 	next := int64(1)
 	var retry []int64 // values whose Append was refused, to be retried in order
 
@@ -185,6 +190,48 @@ func runScript(id int, seed uint64, idx int, fixed *fixedScript, cf *gallina.Cas
 			}
 			batchLen = 0
 			shut = true
+		case 'B':
+			// precondition (checked by the caller): partial batch non-empty, channel full.
+			// Real time: FlushAndShutdown runs concurrently and must not return while the channel
+			// stays full (2.3 s > two of its retry waits); one receive; then it must hand the
+			// partial batch over and return.  As atomic steps: tryEnqueueingBatch (retry), the
+			// receive, tryEnqueueingBatch (success) + close.
+			ret := make(chan struct{})
+			go func() { q.FlushAndShutdown(done); close(ret) }()
+			blocked := true
+			select {
+			case <-ret:
+				blocked = false
+			case <-time.After(2300 * time.Millisecond):
+			}
+			opsG = append(opsG, "QTryFlush")
+			opsS = append(opsS, "B")
+			obsG = append(obsG, "OBool "+gallina.Bool(blocked))
+			items, ok, ready := q.Recv()
+			opsG = append(opsG, "QRecv")
+			switch {
+			case !ready:
+				obsG = append(obsG, "OBlock")
+			case !ok:
+				obsG = append(obsG, "OClosed")
+				closedSeen = true
+			default:
+				obsG = append(obsG, "OBatch "+gallina.ListZ(gobs(items)))
+				chanLen--
+			}
+			opsG = append(opsG, "QShutdown")
+			select {
+			case <-ret:
+				obsG = append(obsG, "OUnit")
+			case <-time.After(30 * time.Second):
+				obsG = append(obsG, "OBlock")
+				aborted = true
+			}
+			chanLen++
+			batchLen = 0
+			partial = true
+			shut = true
+			blockedFlush = true
 		}
 	}
 
@@ -234,11 +281,17 @@ func runScript(id int, seed uint64, idx int, fixed *fixedScript, cf *gallina.Cas
 			batchLen = 0
 		}
 		_ = flushed
-		// shut down: make room first if the partial batch could not be pushed
-		for batchLen > 0 && chanLen >= nbq {
+		// shut down: make room first if the partial batch could not be pushed -- or, rarely (it costs
+		// 2.3 s of real time), let FlushAndShutdown find the channel full and retry
+		if !shut && !flushed && batchLen > 0 && chanLen >= nbq && len(retry) == 0 && r.Chance(1, 60) {
+			do(sop{K: 'B'})
+		}
+		for !shut && batchLen > 0 && chanLen >= nbq {
 			do(sop{K: 'r'})
 		}
-		do(sop{K: 's'})
+		if !shut {
+			do(sop{K: 's'})
+		}
 		for i := 0; i < nbq+3 && !closedSeen && !aborted; i++ {
 			if r.Chance(1, 5) {
 				do(sop{K: 't'})
@@ -271,6 +324,9 @@ func runScript(id int, seed uint64, idx int, fixed *fixedScript, cf *gallina.Cas
 	}
 	if race {
 		meta.Hit("script:flush-timer-race")
+	}
+	if blockedFlush {
+		meta.Hit("script:flush-blocked-on-full-channel")
 	}
 	if capa < bsz {
 		meta.Hit("script:capacity-below-batch")
